@@ -83,6 +83,8 @@ func config(name string) pmc.Cfg {
 		c.C, c.Byz, c.CommitFails = kit.WeightedCommittee(7, 1, 1, 1), []int{1}, true
 	case "K1x": // 4 equal, Byzantine leader of view 1, every commit callback fails
 		c.C, c.Byz, c.CommitFails = kit.EqualCommittee(4), []int{1}, true
+	case "K0": // 4 equal, every member correct (one more correct member than a quorum: a member can be shown a COMMIT quorum before the proposal)
+		c.C = kit.EqualCommittee(4)
 	case "K9": // 4 equal, Byzantine = leader of view 2 (correct leaders in views 0 and 1: locks exist when the Byzantine leader assembles its NEW_VIEW)
 		c.C, c.Byz = kit.EqualCommittee(4), []int{2}
 	case "K7": // 7 equal, two Byzantine members (leaders of views 0 and 1)
@@ -206,6 +208,13 @@ func plan(prop, tier string) []run {
 		r = append(r, run{cfg: "K8@v1a", menu: "M1", prims: menus["M1"], budget: 60 * time.Second, maxV: 1, liveN: all})
 		r = append(r, run{cfg: "K1@v0a", menu: "M1", prims: menus["M1"], budget: 60 * time.Second, maxV: 0, liveN: all})
 		r = append(r, run{cfg: "K8b@v1a", menu: "M1", prims: menus["M1"], budget: 60 * time.Second, maxV: 1, liveN: all})
+		// four correct members, every single-delivery order of view 0 (states in which a member holds a COMMIT quorum
+		// before the proposal): the members that accepted the committed view's proposal must all commit
+		k0 := -3000
+		if !q {
+			k0 = all
+		}
+		r = append(r, run{cfg: "K0@v0a", menu: "M0", prims: menus["M0"], d: -1, budget: 60 * time.Second, maxV: 0, liveN: k0})
 		if q {
 			r = append(r, run{cfg: "K1@v1a", menu: "M1", prims: menus["M1"], budget: 60 * time.Second, maxV: 1, liveN: -400})
 		} else {
@@ -255,6 +264,10 @@ func plan(prop, tier string) []run {
 		add("K3b@v2", "M3", 0, mul*10*time.Second)  // every vote variant of two Byzantine members for the correct leader of view 2: exhaustive
 		add("K10^2@v1", "M0", 0, mul*5*time.Second)   // weights 7,1,1,1: the first leader is a quorum by itself and decides inside its own proposal step: exhaustive
 		add("K10b^2@v1", "M0", 0, mul*5*time.Second)  // the same with the light members silent
+		add("K0@v0", "M0", -1, mul*5*time.Second)     // four correct members, every single-delivery order in view 0 (a COMMIT quorum can precede the proposal): exhaustive
+		if prop == "C11" || !q {
+			add("K0@v1", "M0", 0, mul*40*time.Second) // four correct members, one view change: exhaustive
+		}
 		add("K10x@v2", "M1", 0, mul*15*time.Second)   // the same committee with commit callbacks that fail: the heavy member is prepared by its proposal alone, stays in the height and takes part in view changes
 		add("K1@v0a", "MCS", 0, mul*10*time.Second)  // Byzantine COMMITs that carry a correct member's random-seed share: exhaustive
 		add("K1@v1a", "MNC", 0, mul*10*time.Second) // the adversary's own messages signed over non-canonical header encodings: exhaustive
